@@ -235,6 +235,17 @@ def RES(K=0, horizon=6, r=1, q=1, ops=None):
     return spec(f'RES[r{r},q{q},K{K}]', devs, horizon, ops, K, pools={'r': r, 'q': q})
 
 
+def RES_TWICE(K=0, horizon=8, ops=None):
+    """Two lines of their own compete for one unit and take turns, so each machine has to WAIT for the unit a second time
+    after having been woken once (sources slower than the machines: a machine gives the unit back between two parts); the
+    first line runs out of parts, after which the unit is free and the second line is the only one left to use it."""
+    devs = [src('S1', 2, 2), proc('M1', ['S1'], 1, resources={'r': 1}), sink('K1', ['M1']),
+            src('S2', 2), proc('M2', ['S2'], 1, resources={'r': 1}), sink('K2', ['M2'])]
+    if ops is None:
+        ops = [('fail', 'M1', 0), ('restore', 'M1'), ('addres', 'r', -1), ('addres', 'r', 1)]
+    return spec(f'RESTWICE[K{K}]', devs, horizon, ops, K, pools={'r': 1})
+
+
 def RES_WINDOW(K=0, horizon=7, ops=None):
     '''A maintenance shutdown that begins exactly at the instant a part is finished, between the hand-over and the
     processor's deferred release of its resources (scripted, documented custom priority RELEASE_RESERVED_RESOURCES+0.5),
